@@ -82,6 +82,7 @@ type inliner struct {
 	recvCache map[*ast.SelectorExpr]ast.Expr
 	tailOnly  map[*ast.CallExpr]bool // callee has several returns: expandable only as the operand of a return
 	asTail    bool
+	litDone   map[*ast.FuncLit]bool
 }
 
 // normalisePackage rewrites the bodies of p's function declarations in place (once per loaded package).
@@ -106,7 +107,7 @@ func normalisePackage(m *Module, p *packages.Package) int {
 		known[n] = true
 	}
 	fs := pkgFuncs(m, p)
-	in := &inliner{m: m, p: p, info: p.TypesInfo, decls: map[*types.Func]*ast.FuncDecl{}, fresh: map[*types.Func]bool{}, state: map[*types.Func]int{}, tailOnly: map[*ast.CallExpr]bool{}}
+	in := &inliner{m: m, p: p, info: p.TypesInfo, decls: map[*types.Func]*ast.FuncDecl{}, fresh: map[*types.Func]bool{}, state: map[*types.Func]int{}, tailOnly: map[*ast.CallExpr]bool{}, litDone: map[*ast.FuncLit]bool{}}
 	anyFresh := false
 	for n, f := range fs {
 		if f.Obj == nil {
@@ -207,6 +208,23 @@ func (in *inliner) normalise(o *types.Func) {
 	fd := in.decls[o]
 	if fd != nil && fd.Body != nil {
 		fd.Body = in.block(fd.Body, o)
+		// function literals inside (per-request closures, goroutine bodies) are normalised in place, innermost last
+		for round := 0; round < 3; round++ {
+			var lits []*ast.FuncLit
+			ast.Inspect(fd.Body, func(n ast.Node) bool {
+				if l, ok := n.(*ast.FuncLit); ok && !in.litDone[l] {
+					lits = append(lits, l)
+				}
+				return true
+			})
+			if len(lits) == 0 {
+				break
+			}
+			for _, l := range lits {
+				in.litDone[l] = true
+				l.Body = in.block(l.Body, o)
+			}
+		}
 		if d := os.Getenv("VERIF_DUMPNORM"); d != "" && d == fd.Name.Name {
 			_ = printer.Fprint(os.Stderr, token.NewFileSet(), fd)
 			os.Stderr.WriteString("\n")
@@ -612,6 +630,32 @@ func (in *inliner) stmt(s ast.Stmt, within *types.Func) ([]ast.Stmt, bool) {
 		if ne, ch := in.expr(x.Cond, within); ch {
 			cp.Cond = ne
 			changed = true
+		} else {
+			// if h(args) / if !h(args) with a helper of several statements: its statements run right before the test
+			inner, neg := unparen(x.Cond), false
+			if u, isU := inner.(*ast.UnaryExpr); isU && u.Op == token.NOT {
+				inner, neg = unparen(u.X), true
+			}
+			if call, isC := inner.(*ast.CallExpr); isC {
+				if fd, f := in.inlinable(call, within); fd != nil && !in.tailOnly[call] {
+					if p2, res, ok := in.expand(call, fd, f, false); ok && len(res) == 1 {
+						pre = append(pre, p2...)
+						cond := ast.Expr(&ast.ParenExpr{Lparen: call.Pos(), X: res[0], Rparen: call.End()})
+						if tv, has := in.info.Types[call]; has {
+							in.info.Types[cond] = tv
+						}
+						if neg {
+							n := &ast.UnaryExpr{OpPos: x.Cond.Pos(), Op: token.NOT, X: cond}
+							if tv, has := in.info.Types[x.Cond]; has {
+								in.info.Types[n] = tv
+							}
+							cond = n
+						}
+						cp.Cond = cond
+						changed = true
+					}
+				}
+			}
 		}
 		if changed {
 			return append(pre, &cp), true
@@ -1045,6 +1089,41 @@ func (in *inliner) guarded(as *ast.AssignStmt, ifs *ast.IfStmt, within *types.Fu
 	for i := 0; i < sig.Params().Len(); i++ {
 		params[sig.Params().At(i)] = true
 	}
+	// for every return of h: the error variables known non-nil there (enclosing `if v != nil` bodies)
+	nonNilAt := map[*ast.ReturnStmt]map[types.Object]bool{}
+	{
+		var walk func(n ast.Node, known map[types.Object]bool)
+		walk = func(n ast.Node, known map[types.Object]bool) {
+			ast.Inspect(n, func(m ast.Node) bool {
+				switch x := m.(type) {
+				case *ast.FuncLit:
+					return false
+				case *ast.ReturnStmt:
+					nonNilAt[x] = known
+				case *ast.IfStmt:
+					if x.Init != nil {
+						walk(x.Init, known)
+					}
+					inner := known
+					if be, ok := unparen(x.Cond).(*ast.BinaryExpr); ok && be.Op == token.NEQ && isNilIdent(in.info, be.Y) {
+						if o := objOf(in.info, be.X); o != nil {
+							inner = map[types.Object]bool{o: true}
+							for k := range known {
+								inner[k] = true
+							}
+						}
+					}
+					walk(x.Body, inner)
+					if x.Else != nil {
+						walk(x.Else, known)
+					}
+					return false
+				}
+				return true
+			})
+		}
+		walk(fd.Body, map[types.Object]bool{})
+	}
 	success := func(r *ast.ReturnStmt) (isSuccess, known bool) {
 		if len(r.Results) != sig.Results().Len() {
 			return false, false
@@ -1067,6 +1146,10 @@ func (in *inliner) guarded(as *ast.AssignStmt, ifs *ast.IfStmt, within *types.Fu
 			return false, true
 		case *ast.Ident:
 			if v, isV := in.info.Uses[x].(*types.Var); isV && v.Parent() == v.Pkg().Scope() {
+				return false, true
+			}
+			// a local error returned from inside `if err != nil { … }`
+			if nonNilAt[r] != nil && nonNilAt[r][in.info.Uses[x]] {
 				return false, true
 			}
 		case *ast.SelectorExpr:
@@ -1195,6 +1278,15 @@ func (in *inliner) guarded(as *ast.AssignStmt, ifs *ast.IfStmt, within *types.Fu
 	for i, a := range call.Args {
 		bind(sig.Params().At(i), a)
 	}
+	failUses := map[types.Object]bool{}
+	ast.Inspect(ifs.Body, func(n ast.Node) bool {
+		if id, ok := n.(*ast.Ident); ok {
+			if o := in.info.Uses[id]; o != nil {
+				failUses[o] = true
+			}
+		}
+		return true
+	})
 	cp := &copier{info: in.info, subst: subst}
 	failCopier := &copier{info: in.info, subst: map[types.Object]ast.Expr{}}
 	cp.onReturn = func(r *ast.ReturnStmt) ast.Stmt {
@@ -1211,7 +1303,21 @@ func (in *inliner) guarded(as *ast.AssignStmt, ifs *ast.IfStmt, within *types.Fu
 			return asg
 		}
 		blk := &ast.BlockStmt{Lbrace: r.Pos(), Rbrace: r.End()}
-		blk.List = append(blk.List, asg)
+		// on a failure path only the results FAIL looks at are assigned (the others are dead there, and assigning them would
+		// hide that the variable has one meaningful definition)
+		if len(res) == len(lhs) {
+			var l2, r2 []ast.Expr
+			for i, l := range as.Lhs {
+				if o := objOf(in.info, l); o != nil && failUses[o] {
+					l2 = append(l2, lhs[i])
+					r2 = append(r2, res[i])
+				}
+			}
+			asg.Lhs, asg.Rhs = l2, r2
+		}
+		if len(asg.Lhs) > 0 {
+			blk.List = append(blk.List, asg)
+		}
 		for _, fs := range fail {
 			blk.List = append(blk.List, failCopier.node(fs).(ast.Stmt))
 		}
